@@ -409,9 +409,12 @@ class Replayer:
         key = json.dumps([kind, name, args, atol])
         if key in self.ref:
             return self.ref[key]
-        set_atol(atol == "changed")
+        # the reference world is built under the default tolerance and switched afterwards, like the world under test:
+        # objects capture tolerance-derived defaults (eps_proj_physical = atol / 10) when they are constructed
+        set_atol(False)
         try:
             w = World(self.family)
+            set_atol(atol == "changed")
             if kind == "pure":
                 val = digest(w.pure(name))
             else:
